@@ -200,7 +200,7 @@ func runWorker(bin, prop string, jobs []Job, procs int, sample int, timeout time
 	os.WriteFile(jf, buf.Bytes(), 0o644)
 	defer os.Remove(jf)
 	cmd := exec.Command(bin, "-test.run", "^TestWorker$", "-test.timeout", "0")
-	cmd.Env = append(os.Environ(), "DST_PROP="+prop, "DST_JOBS="+jf, "DST_PROCS="+strconv.Itoa(procs), "DST_SAMPLE="+strconv.Itoa(sample), "GOTRACEBACK=all", "GOGC=off", "DST_KNOWN="+filepath.Join(verifDir, "known_findings.json"))
+	cmd.Env = append(os.Environ(), "DST_PROP="+prop, "DST_JOBS="+jf, "DST_PROCS="+strconv.Itoa(procs), "DST_SAMPLE="+strconv.Itoa(sample), "GOTRACEBACK=all", "GOGC=off", "DST_KNOWN="+knownFile())
 	if raceBins[bin] {
 		rl := filepath.Join(verifDir, "build", fmt.Sprintf("racelog.%d.%d", os.Getpid(), mySeq))
 		// the detector's shadow memory multiplies the footprint: recycle race workers early
@@ -459,7 +459,7 @@ func cmdRun(args []string) {
 	fmt.Printf("verifcheck: property=%s tier=%s VERIF_SEED=%d\n", *prop, *tier, seed)
 	bin, memo := build(*prop, false)
 	defer os.Remove(bin)
-	if old, _ := filepath.Glob(filepath.Join(verifDir, "replays", *prop+"-*.json")); len(old) > 0 {
+	if old, _ := filepath.Glob(filepath.Join(replaysDir(), *prop+"-*.json")); len(old) > 0 {
 		for _, f := range old {
 			os.Remove(f)
 		}
@@ -605,7 +605,7 @@ func cmdRun(args []string) {
 		}
 		enumStats["race_detector_runs"] = n
 		curBin = raceBin
-		runJobs(jobs, 4)
+		runJobs(jobs, 1)
 		curBin = bin
 	}
 	if fatal != "" {
@@ -644,7 +644,7 @@ func cmdRun(args []string) {
 			continue
 		}
 		rp := Replay{Property: *prop, Class: "process-crash", Detail: what, Seed: seed, Run: j.Run, RepoTree: tree, Crash: res.stderr, Race: raceBins[c.bin]}
-		path := filepath.Join(verifDir, "replays", fmt.Sprintf("%s-%d-%d.json", *prop, seed, j.Run))
+		path := filepath.Join(replaysDir(), fmt.Sprintf("%s-%d-%d.json", *prop, seed, j.Run))
 		b, _ := json.MarshalIndent(rp, "", " ")
 		os.MkdirAll(filepath.Dir(path), 0o755)
 		os.WriteFile(path, b, 0o644)
@@ -706,9 +706,9 @@ func cmdRun(args []string) {
 		}
 		rp := Replay{Property: l.Prop, Class: best.Class, Step: best.VStep, Detail: best.Violation, Seed: seed, Run: l.Run, FaultPos: l.Pos, FaultKind: l.Kind,
 			Tape: bestTape, OrigLen: len(c.Tape), LogHash: best.LogHash, Cfg: best.Cfg, Sig: best.Sig, Log: best.Log, RepoTree: tree, Race: l.Race}
-		path := filepath.Join(verifDir, "replays", fmt.Sprintf("%s-%d-%d.json", *prop, seed, l.Run))
+		path := filepath.Join(replaysDir(), fmt.Sprintf("%s-%d-%d.json", *prop, seed, l.Run))
 		if l.Kind != "" {
-			path = filepath.Join(verifDir, "replays", fmt.Sprintf("%s-%d-%d-%s@%d.json", *prop, seed, l.Run, l.Kind, l.Pos))
+			path = filepath.Join(replaysDir(), fmt.Sprintf("%s-%d-%d-%s@%d.json", *prop, seed, l.Run, l.Kind, l.Pos))
 		}
 		b, _ := json.MarshalIndent(rp, "", " ")
 		os.MkdirAll(filepath.Dir(path), 0o755)
@@ -735,6 +735,25 @@ func cmdRun(args []string) {
 	if newViol > 0 {
 		os.Exit(1)
 	}
+}
+
+// knownFile: the known-findings list the simulator suppresses in-run; a replay shows
+// the recorded violation whether or not it is listed
+var ignoreKnown bool
+
+func knownFile() string {
+	if ignoreKnown {
+		return os.DevNull
+	}
+	return filepath.Join(verifDir, "known_findings.json")
+}
+
+// replaysDir: /verif/replays, or a private directory for tagged (development) invocations
+func replaysDir() string {
+	if t := os.Getenv("VERIF_TAG"); t != "" {
+		return filepath.Join(verifDir, "build", "replays"+t)
+	}
+	return filepath.Join(verifDir, "replays")
 }
 
 func sigKey(m map[string]string) string {
@@ -977,6 +996,7 @@ func cmdReplay(args []string) {
 	if err := json.Unmarshal(b, &rp); err != nil {
 		die2("bad replay file: %v", err)
 	}
+	ignoreKnown = true
 	bin, _ := build("replay-"+rp.Property, rp.Race)
 	raceBins[bin] = rp.Race
 	defer os.Remove(bin)
